@@ -51,6 +51,13 @@ class Lexer:
         # Hack to avoid tokenization bugs caused by files that do not end in a
         # new line.
         self.lex.input(file_data + '\n')
+        # The first line is not preceded by a newline, so check its
+        # indentation here.
+        start_token = _create_token('NEWLINE', '', 0, 0)
+        start_token.lexer = self.lex
+        dent_tokens = self._create_tokens_for_next_line_dent(start_token)
+        if dent_tokens:
+            self.tokens_queue.extend(dent_tokens.tokens)
 
     def token(self):
         """
@@ -300,8 +307,9 @@ class Lexer:
         # partial line. But, if we find a newline before a non-ws character,
         # then we know the entire line was a comment.
         i = token.lexpos - 1
-        while i >= 0:
-            is_full_line_comment = token.lexer.lexdata[i] == '\n'
+        while i >= -1:
+            # The start of the file counts as the start of a line.
+            is_full_line_comment = i < 0 or token.lexer.lexdata[i] == '\n'
             is_partial_line_comment = (not is_full_line_comment and
                                        token.lexer.lexdata[i] != ' ')
             if is_full_line_comment or is_partial_line_comment:
